@@ -983,6 +983,68 @@ func oracleKinds(h *rt.H, s *state, ops []string) {
 			}
 		}
 	}
+	// every RouteUpdate the dataplane holds for a REMOTE node's workload destination of the manager's pool
+	// type (remote blocks and single addresses, including an address of a LOCAL block that a remote node
+	// borrowed: Types = LOCAL_WORKLOAD|REMOTE_WORKLOAD) must be programmed, with the kind the pool mode and
+	// the update's same-subnet flag demand, as soon as the manager has what the route needs (parent device
+	// and node IP for a direct route; the node's VTEP / host address for a tunnel route)
+	var dsts []string
+	for d := range s.sent {
+		dsts = append(dsts, d)
+	}
+	sort.Slice(dsts, func(i, j int) bool { return cidrLess(dsts[i], dsts[j]) })
+	for _, d := range dsts {
+		u := s.sent[d]
+		if strings.Contains(u.Dst, ":") || int(u.IpPoolType) != s.pt ||
+			u.Types&proto.RouteType_REMOTE_WORKLOAD == 0 || u.Types&proto.RouteType_REMOTE_TUNNEL != 0 ||
+			u.DstNodeName == "" || u.DstNodeName == nodeName(s.me) {
+			continue
+		}
+		owner := atoi(nodeNum(u.DstNodeName))
+		borrowedLocal := u.Types&proto.RouteType_LOCAL_WORKLOAD != 0
+		got := byDst[cidrNum(u.Dst)]
+		hasDirect, hasTunnel := false, false
+		for _, g := range got {
+			if u.DstNodeIp != "" && g == fmt.Sprintf("%d/1|ne|%d", classDirect, ipNum(u.DstNodeIp)) {
+				hasDirect = true
+			}
+			if strings.HasPrefix(g, fmt.Sprintf("%d/2|", classTunnel)) && s.pt != 1 {
+				hasTunnel = true
+			}
+		}
+		info := map[string]any{"ops": ops, "dst": u.Dst, "update": showUpdate(u), "got": got, "manager": s.pt}
+		switch {
+		case s.hasParent() && (s.pt == 1 || u.SameSubnet) && u.DstNodeIp != "":
+			if !hasDirect {
+				sig := "remote-route-missing"
+				if borrowedLocal {
+					sig = "borrowed-address-route-missing"
+				}
+				h.OracleFail(sig, fmt.Sprintf("the dataplane holds a RouteUpdate for %s on remote node %s (no-encap / same-subnet: direct via %s) but no such route is programmed after apply", u.Dst, u.DstNodeName, u.DstNodeIp), info)
+			} else if borrowedLocal {
+				h.Count("obs:borrowed-from-local-block-routed:direct")
+			}
+		case s.pt != 1:
+			tunnelInfo := false
+			if s.pt == 2 {
+				v, ok := t.vteps[owner]
+				tunnelInfo = ok && v[0] != 0
+			} else {
+				tunnelInfo = t.hostmeta[owner] != 0
+			}
+			if !tunnelInfo {
+				h.Count("obs:remote-route-awaits-tunnel-info")
+			} else if !hasTunnel {
+				sig := "remote-route-missing"
+				if borrowedLocal {
+					sig = "borrowed-address-route-missing"
+				}
+				h.OracleFail(sig, fmt.Sprintf("the dataplane holds a RouteUpdate for %s on remote node %s (encapsulated pool, tunnel endpoint known) but no tunnel route is programmed after apply", u.Dst, u.DstNodeName), info)
+			} else if borrowedLocal {
+				h.Count("obs:borrowed-from-local-block-routed:tunnel")
+			}
+		}
+	}
 	// the positive half: a block of the LOCAL node (not a single address) inside exactly one pool of the
 	// manager's type has a blackhole route
 	for _, bk := range sortedCidrs(t.blocks) {
